@@ -285,3 +285,67 @@ Example C13_pow_nonvacuous :
   pow (2 * P18) P18 = Err EPowBaseGE2 /\ pow 0 P18 = Err EPowBaseLE0 /\
   pow (15 * 10 ^ 17) (3 * P18) = dc_power (15 * 10 ^ 17) 3.
 Proof. vm_compute. repeat split. Qed.
+
+(* ---------- Pow / PowApprox: error bound for 1/2 <= base < 2 (C13/PowSeries.v PowBound.v PowSqrt.v PowInt.v PowLift.v) ----------
+   This supersedes the remark above that no error bound is proved on that range.  Route: the real binomial series
+   (1+x)^a = sum_n C(a,n) x^n (|x| < 1, 0 <= a <= 1; Coquelicot power series, ODE (1+x) S' = a S, mean value theorem) with the
+   remainder below the first omitted term for 0 <= x < 1 (alternating) and below twice it for -1/2 <= x <= 0 (geometric);
+   every round of the loop adds at most 2 ulp to the signed term, and the error of the running sum after k rounds is at most
+   2k ulp (x >= 0: consecutive sum errors bracket the next one) resp. 4k ulp (x < 0); k < powIterationLimit.
+   The exponent-1/2 shortcut (LegacyDec.ApproxSqrt, Newton) is within 5 ulp.  The integer power LegacyDec.Power(n) is within
+   2 n max(1,b)^n ulp for n <= 2^28. *)
+From Osmo Require Import C13.PowSeries C13.PowBound C13.PowSqrt C13.PowInt C13.PowLift.
+Open Scope Z_scope.
+
+(* PowApprox(base, exp, precision), contract 0 <= exp < 1, for 1/2 <= base < 2 and any precision in [0, 1]: a returned value
+   is within precision + 1e-12 of base^exp (all exponents, including the ApproxSqrt shortcut at exp = 1/2).  The "Ok" premise
+   is essential: for base close to 2 the loop panics loudly at powIterationLimit. *)
+Theorem C13_pow_approx_bound : forall base exp prec r,
+  P18 <= 2 * base -> base < 2 * P18 -> 0 <= exp < P18 -> 0 <= prec <= P18 ->
+  pow_approx base exp prec = Ok r ->
+  (Rabs (dR r - Rpower (dR base) (dR exp)) <= dR prec + / 10 ^ 12)%R.
+Proof. exact pow_approx_bound_all. Qed.
+Print Assumptions C13_pow_approx_bound.
+
+(* Pow(base, exp) for 1/2 <= base < 2, exp >= 0:
+   (1) exp < 1: within 1e-8 + 1e-12 of base^exp  (the documented power precision 1e-8, up to accumulated rounding);
+   (2) integer part n <= 2^28: within max(1,base)^n * (1e-8 + 1e-12 + 5 n ulp) + 1/2 ulp of base^exp
+       - "the documented precision scaled by the integer power";
+   (3) any exp >= 0: Pow is the rounded product of the LegacyDec integer power ip = base.Power(n) and a fractional power within
+       1e-8 + 1e-12 of base^frac(exp). *)
+Theorem C13_pow_bound : forall base exp r,
+  P18 <= 2 * base -> base < 2 * P18 -> 0 <= exp -> pow base exp = Ok r ->
+  (exp < P18 -> (Rabs (dR r - Rpower (dR base) (dR exp)) <= 1 / 10 ^ 8 + 1 / 10 ^ 12)%R) /\
+  (Z.quot exp P18 <= 2 ^ 28 ->
+     let n := Z.to_nat (Z.quot exp P18) in
+     (Rabs (dR r - Rpower (dR base) (dR exp)) <=
+      Rmax 1 (dR base) ^ n * (1 / 10 ^ 8 + 1 / 10 ^ 12 + 5 * INR n * / 10 ^ 18) + / 10 ^ 18 / 2)%R) /\
+  (exists ip, dc_power base (Z.quot exp P18) = Ok ip /\
+     (Rabs (dR r - dR ip * Rpower (dR base) (dR (Z.rem exp P18))) <=
+      Rabs (dR ip) * (1 / 10 ^ 8 + 1 / 10 ^ 12) + / 10 ^ 18 / 2)%R).
+Proof.
+  intros base exp r H1 H2 H3 H. rewrite <- pow_err_val. replace (/ 10 ^ 18)%R with u18 by (unfold u18; rewrite T18_val; reflexivity).
+  split; [intros H4; apply pow_bound_fractional; try assumption; split; assumption|].
+  split; [intros H4; apply pow_bound_full; assumption|apply pow_bound_product; assumption].
+Qed.
+Print Assumptions C13_pow_bound.
+
+(* the two ingredients with their own (much smaller) bounds: the ApproxSqrt shortcut and the integer power *)
+Theorem C13_pow_parts_bound :
+  (forall d r, P18 <= 2 * d -> d < 2 * P18 -> approx_sqrt d = Ok r ->
+     (Rabs (dR r - sqrt (dR d)) <= 5 * / 10 ^ 18)%R) /\
+  (forall base n ip, 0 < base -> 0 < n <= 2 ^ 28 -> dc_power base n = Ok ip ->
+     (Rabs (dR ip - dR base ^ Z.to_nat n) <= 2 * IZR n * Rmax 1 (dR base) ^ Z.to_nat n * / 10 ^ 18)%R).
+Proof.
+  replace (/ 10 ^ 18)%R with u18 by (unfold u18; rewrite T18_val; reflexivity).
+  split; [exact approx_sqrt_bound|intros base n ip Hb Hn; exact (dc_power_bound base Hb n Hn ip)].
+Qed.
+Print Assumptions C13_pow_parts_bound.
+
+Example C13_pow_bound_nonvacuous :
+  pow (5 * 10 ^ 17) (3 * 10 ^ 17) = Ok 812252404908473209 /\            (* 0.5^0.3 = 0.81225239635623..., off by 8.5e-9 *)
+  pow_approx (199 * 10 ^ 16) (3 * 10 ^ 17) pow_precision = Ok 1229294450848366842 /\  (* 1.99^0.3 = 1.22929445578315..., off by 4.9e-9 *)
+  pow_approx (15 * 10 ^ 17) pow_one_half pow_precision = Ok 1224744871391589049 /\    (* sqrt 1.5 = 1.2247448713915890490986... *)
+  pow (15 * 10 ^ 17) (25 * 10 ^ 17) = Ok 2755675960631075360 /\         (* 1.5^2.5 = 2.75567596063107536047..., integer part 2 *)
+  P18 <= 2 * (5 * 10 ^ 17) /\ 199 * 10 ^ 16 < 2 * P18 /\ 0 <= pow_precision <= P18.
+Proof. vm_compute. repeat split; discriminate. Qed.
